@@ -7,8 +7,9 @@
 //   potrf <l|u> <r|c> n A[n*n]
 //   pstrf <l|u> <r|c> n A[n*n]
 //   getrf <r|c> n A[n*n]
-//   solve <tag> <L|R> <r|c> <v|r|c> <s|i> n m A[n*n] B      tag: spd semi lu tl tu tul tuu cg eig
-//        (s = solve(A,B,tag,side); i = inv(A,tag) % B resp. B % inv(A,tag))
+//   solve <tag> <L|R> <r|c> <v|r|c> <form> n m A[n*n] B      tag: spd semi lu tl tu tul tuu cg cg:<eps>:<maxit>
+//        (form s = solve(A,B,tag,side); i = inv(A,tag) % B resp. B % inv(A,tag); ... see below;
+//         cg = conjugate_gradient(1e-12, 0); cg:<eps>:<maxit> = conjugate_gradient(eps, maxit), eps written p/q)
 //   cholup <r|c> n alpha beta A[n*n] v[n]
 //   cholseq <r|c> n k A[n*n] (alpha beta v[n])*k <L|R|N> [b[n]]     k updates on one decomposition object, then solve
 //   decomp <chol|chold|lu|semi|eig> <r|c> n q A[n*n] (<L|R> <v|r|c> m B)*q   one decomposition object, q solves
@@ -315,14 +316,23 @@ static std::string opGetrf(Args& a){
 //   checks/c02.py probes this per tree and switches the forms on as soon as it does; 1: it instantiates for operands
 //   of the same type only -- the right-hand side is copied to A's orientation first; 2: for any operands):
 //   't' Xt = trans(solve(...)); x = trans(Xt)     'c' column(solve(...),k) for every k     'l' e_i % solve(...) for every i
+//   every right-hand side kind:
+//   'k' x = 1; noalias(x) -= solve(...); x = 1 - x                                              (minus_assign: -1 * solve, plus_assign_to)
+//   'u' x = trans(inv(At, tag^T)) % B  resp.  B % trans(inv(At, tag^T)),  At = trans(A) stored   (explicit trans(inv(..)):
+//       matrix_transpose_optimizer<matrix_inverse>, then the product rewrite)
 static bool formKnown(char form, bool vec){
 #ifdef C02_TRANS_FORMS
 	if(!vec && (form == 't' || form == 'c' || form == 'l')) return true;
+	if(form == 'u') return true;
 #endif
-	if(form == 's' || form == 'i' || form == 'a' || form == 'b' || form == 'e' || form == 'x' || form == 'y') return true;
+	if(form == 's' || form == 'i' || form == 'a' || form == 'b' || form == 'e' || form == 'x' || form == 'y' || form == 'k') return true;
 	if(vec) return false;
 	return form == 'r' || form == 'j' || form == 'p' || form == 'q' || form == 'm' || form == 'n';
 }
+// the tag of the transposed system, state kept (written independently of solve.hpp's helper)
+template<class T> T transposedTag(T t){ return t; }
+template<bool U, bool Un> triangular_tag<!U, Un> transposedTag(triangular_tag<U, Un>){ return triangular_tag<!U, Un>(); }
+
 template<class Tag, class Side, class OA>
 Dense frontVec(Dense const& A, Dense const& b, Tag tag, char form, int& ix){
 	matrix<double, OA> a; toRemora(A, a);
@@ -332,9 +342,13 @@ Dense frontVec(Dense const& A, Dense const& b, Tag tag, char form, int& ix){
 	matrix<double, OA> at = trans(a);
 	vector<double> big(rhs.size() + 3, 7.0); for(std::size_t i = 0; i != rhs.size(); ++i) big(i + 2) = rhs(i);
 	// the += forms start from x = (1,...,1) (subtracted again afterwards; exact whenever the sum was exact)
-	if(form == 'a' || form == 'b') x = vector<double>(rhs.size(), 1.0);
+	if(form == 'a' || form == 'b' || form == 'k') x = vector<double>(rhs.size(), 1.0);
 	Flag fl;
 	if(form == 's') x = solve(a, rhs, tag, Side());
+	else if(form == 'k') noalias(x) -= solve(a, rhs, tag, Side());
+#ifdef C02_TRANS_FORMS
+	else if(form == 'u'){ if(Side::is_left) x = trans(inv(at, transposedTag(tag))) % rhs; else x = rhs % trans(inv(at, transposedTag(tag))); }
+#endif
 	else if(form == 'i'){ if(Side::is_left) x = inv(a, tag) % rhs; else x = rhs % inv(a, tag); }
 	else if(form == 'a') noalias(x) += solve(a, rhs, tag, Side());
 	else if(form == 'b'){ if(Side::is_left) noalias(x) += inv(a, tag) % rhs; else noalias(x) += rhs % inv(a, tag); }
@@ -348,6 +362,7 @@ Dense frontVec(Dense const& A, Dense const& b, Tag tag, char form, int& ix){
 	else throw std::runtime_error("bad-form");
 	ix = fl.read();
 	if(form == 'a' || form == 'b') for(std::size_t i = 0; i != x.size(); ++i) x(i) -= 1.0;
+	if(form == 'k') for(std::size_t i = 0; i != x.size(); ++i) x(i) = 1.0 - x(i);
 	Dense X(x.size(), 1); for(std::size_t i = 0; i != x.size(); ++i) X(i, 0) = x(i);
 	return X;
 }
@@ -356,7 +371,7 @@ Dense frontMat(Dense const& A, Dense const& B, Tag tag, char form, int& ix){
 	matrix<double, OA> a; toRemora(A, a);
 	matrix<double, OB> rhs; toRemora(B, rhs);
 	std::size_t R = rhs.size1(), C = rhs.size2();
-	matrix<double, OB> x(R, C, (form == 'a' || form == 'b') ? 1.0 : 0.0);
+	matrix<double, OB> x(R, C, (form == 'a' || form == 'b' || form == 'k') ? 1.0 : 0.0);
 	matrix<double, OA> at = trans(a);
 	matrix<double, OB> bt = trans(rhs);
 	matrix<double> I(C, C, 0.0); for(std::size_t k = 0; k != C; ++k) I(k, k) = 1.0;
@@ -369,8 +384,12 @@ Dense frontMat(Dense const& A, Dense const& B, Tag tag, char form, int& ix){
 	if(form == 's') x = solve(a, rhs, tag, Side());
 	else if(form == 'i'){ if(Side::is_left) x = inv(a, tag) % rhs; else x = rhs % inv(a, tag); }
 	else if(form == 'a') noalias(x) += solve(a, rhs, tag, Side());
+	else if(form == 'k') noalias(x) -= solve(a, rhs, tag, Side());
 	else if(form == 'b'){ if(Side::is_left) noalias(x) += inv(a, tag) % rhs; else noalias(x) += rhs % inv(a, tag); }
 	else if(form == 'e') x = solve(trans(at), trans(bt), tag, Side());
+#ifdef C02_TRANS_FORMS
+	else if(form == 'u'){ if(Side::is_left) x = trans(inv(at, transposedTag(tag))) % rhs; else x = rhs % trans(inv(at, transposedTag(tag))); }
+#endif
 	else if(form == 'x' || form == 'y'){
 		matrix<double> ainv(a.size1(), a.size2(), form == 'y' ? 1.0 : 0.0);
 		if(form == 'x') ainv = inv(a, tag);
@@ -413,6 +432,7 @@ Dense frontMat(Dense const& A, Dense const& B, Tag tag, char form, int& ix){
 	else throw std::runtime_error("bad-form");
 	ix = fl.read();
 	if(form == 'a' || form == 'b') for(std::size_t i = 0; i != R; ++i) for(std::size_t j = 0; j != C; ++j) x(i, j) -= 1.0;
+	if(form == 'k') for(std::size_t i = 0; i != R; ++i) for(std::size_t j = 0; j != C; ++j) x(i, j) = 1.0 - x(i, j);
 	return fromRemora(x);
 }
 template<class Tag, class Side, class OA>
@@ -426,6 +446,77 @@ template<class Tag>
 Dense frontAll(Dense const& A, Dense const& B, Tag tag, char S, char O, char rhsKind, char form, int& ix){
 	SIDE_DISPATCH(S, OR_DISPATCH(O, OA, return (front<Tag, Side, OA>(A, B, tag, rhsKind, form, ix)); ))
 }
+// ---- conjugate gradient: independent reference and the "requested level" oracle
+// own conjugate gradient in long double, started at zero, at most `maxit` passes (0: until the tolerance is met,
+// capped); this is the textbook recurrence, written without looking at remora's kernels
+static std::vector<ld> refCG(Dense const& M, std::vector<ld> const& b, ld eps, unsigned maxit){
+	std::size_t n = b.size();
+	std::vector<ld> x(n, 0), r(b), p(b), Ap(n);
+	ld rn = 0; for(std::size_t i = 0; i != n; ++i) rn = std::max(rn, std::fabs(r[i]));
+	if(rn < eps) return x;
+	for(unsigned it = 0; it != 100000; ++it){
+		if(maxit != 0 && it >= maxit) break;
+		ld rs = 0, pAp = 0;
+		for(std::size_t i = 0; i != n; ++i){ ld s = 0; for(std::size_t k = 0; k != n; ++k) s += (ld)M(i, k) * p[k]; Ap[i] = s; }
+		for(std::size_t i = 0; i != n; ++i){ rs += r[i] * r[i]; pAp += p[i] * Ap[i]; }
+		ld alpha = rs / pAp, rs2 = 0; rn = 0;
+		for(std::size_t i = 0; i != n; ++i){ x[i] += alpha * p[i]; r[i] -= alpha * Ap[i]; rs2 += r[i] * r[i]; rn = std::max(rn, std::fabs(r[i])); }
+		if(rn < eps) break;
+		for(std::size_t i = 0; i != n; ++i) p[i] = rs2 / rs * p[i] + r[i];
+	}
+	return x;
+}
+// is the value of this form, by the identities documented in solve.hpp, ONE solve of the system with the given
+// right-hand side (as opposed to a product of the right-hand side with solves of unit vectors / the evaluated inverse)?
+// Only for such forms an iteration limit pins the result down to "the k-th conjugate-gradient iterate".
+static bool singleSolveForm(char form, char S, char K){
+	if(form == 'x' || form == 'y') return false;
+	if(K == 'v') return true;
+	if(form == 'r' || form == 'j') return S == 'R';
+	if(form == 'p' || form == 'q') return S == 'L';
+	if(form == 'c') return S == 'L';
+	if(form == 'l') return S == 'R';
+	return true;
+}
+// M XX = BB column by column.  Requested level: max |M x - b| <= eps (* the 1-norm of the right-hand sides involved
+// for the product forms) + rounding.  Iteration limit k on a single-solve form: x must be the k-th CG iterate from zero
+// (checked when zero is the library's starting point for every column: |b - M b| > |b|).
+static std::string cgOracle(Dense const& M, Dense const& XX, Dense const& BB, double eps, unsigned maxit, char form, char S, char K){
+	if(!allFinite(XX)) return " !oracle cg-nan";
+	std::size_t n = M.r, m = XX.c;
+	bool single = singleSolveForm(form, S, K);
+	if(maxit == 0){
+		ld F = 1;
+		if(!single){
+			// product forms: X = (solves of unit vectors) combined with the entries of B: the 1-norm of B's rows/columns enters
+			ld rs = 0, cs = 0;
+			for(std::size_t i = 0; i != BB.r; ++i){ ld t = 0; for(std::size_t j = 0; j != BB.c; ++j) t += std::fabs((ld)BB(i, j)); rs = std::max(rs, t); }
+			for(std::size_t j = 0; j != BB.c; ++j){ ld t = 0; for(std::size_t i = 0; i != BB.r; ++i) t += std::fabs((ld)BB(i, j)); cs = std::max(cs, t); }
+			F = std::max((ld)1, std::max(rs, cs));
+			if(form == 'x' || form == 'y') F *= 1e3L * (ld)n;   // through the evaluated inverse: forward stable only
+		}
+		ld res = residual(M, XX, BB);
+		ld bound = F * (ld)eps * 1.001L + 7e-15L * (ld)(n + 8) * (normInf(M) * maxAbs(XX) + maxAbs(BB));
+		if(!(res <= bound)){ std::ostringstream os; os << " !oracle cg-residual-above-requested-level res=" << (double)res << " bound=" << (double)bound; return os.str(); }
+		return "";
+	}
+	if(!single) return "";
+	for(std::size_t j = 0; j != m; ++j){
+		std::vector<ld> b(n); ld nb = 0, nr = 0;
+		for(std::size_t i = 0; i != n; ++i){ b[i] = BB(i, j); nb = std::max(nb, std::fabs(b[i])); }
+		for(std::size_t i = 0; i != n; ++i){ ld s = b[i]; for(std::size_t k = 0; k != n; ++k) s -= (ld)M(i, k) * b[k]; nr = std::max(nr, std::fabs(s)); }
+		if(K == 'v' || form == 'r' || form == 'j' || form == 'p' || form == 'q' || form == 'c' || form == 'l')
+			if(!(nr > nb * 1.000001L)) continue;       // the vector overload may start from x = b: not the iterate from zero
+		std::vector<ld> xr = refCG(M, b, eps, maxit);
+		ld sc = 1; for(std::size_t i = 0; i != n; ++i) sc = std::max(sc, std::fabs(xr[i]));
+		for(std::size_t i = 0; i != n; ++i) if(!(std::fabs((ld)XX(i, j) - xr[i]) <= 1e-9L * sc)){
+			std::ostringstream os; os << " !oracle cg-not-the-requested-iterate rhs=" << j << " got=" << XX(i, j) << " expected=" << (double)xr[i];
+			return os.str();
+		}
+	}
+	return "";
+}
+
 static std::string opSolve(Args& a){
 	std::string tag = a.word();
 	char S = a.ch(), O = a.ch(), K = a.ch(), form = a.ch();
@@ -438,11 +529,21 @@ static std::string opSolve(Args& a){
 	int ix = 0; Dense X;
 	Dense Aeff = A;      // the matrix the system is about
 	bool lsq = false;    // least-squares oracle (normal equations) instead of residual
-	ld extra = 1;
+	bool cg = false; double cgEps = 1e-12; unsigned cgMaxit = 0;
 	if(tag == "spd") X = frontAll(A, B, symm_pos_def(), S, O, K, form, ix);
 	else if(tag == "semi"){ X = frontAll(A, B, symm_semi_pos_def(), S, O, K, form, ix); lsq = true; }
 	else if(tag == "lu") X = frontAll(A, B, indefinite_full_rank(), S, O, K, form, ix);
-	else if(tag == "cg"){ X = frontAll(A, B, conjugate_gradient(1e-12, 0), S, O, K, form, ix); extra = 1e3; }
+	else if(tag.compare(0, 2, "cg") == 0){
+		cg = true;
+		if(tag.size() > 2){
+			std::size_t c1 = tag.find(':'), c2 = tag.find(':', c1 + 1);
+			if(c1 != 2 || c2 == std::string::npos) throw std::runtime_error("bad-tag");
+			cgEps = parseNum(tag.substr(c1 + 1, c2 - c1 - 1));
+			cgMaxit = (unsigned)std::strtoul(tag.substr(c2 + 1).c_str(), 0, 10);
+			if(!(cgEps > 0)) throw std::runtime_error("bad-tag");
+		}
+		X = frontAll(A, B, conjugate_gradient(cgEps, cgMaxit), S, O, K, form, ix);
+	}
 	else if(tag == "tl"){ X = frontAll(A, B, lower(), S, O, K, form, ix); Aeff = triPart(A, false, false); }
 	else if(tag == "tu"){ X = frontAll(A, B, upper(), S, O, K, form, ix); Aeff = triPart(A, true, false); }
 	else if(tag == "tul"){ X = frontAll(A, B, unit_lower(), S, O, K, form, ix); Aeff = triPart(A, false, true); }
@@ -452,8 +553,10 @@ static std::string opSolve(Args& a){
 	// oracle on the defining equation: left  Aeff X = B ; right  X Aeff = B  (vector rhs: x^T Aeff = b^T)
 	Dense M = Aeff, XX = X, BB = B;
 	if(S == 'R'){ M = transpose(Aeff); if(K != 'v'){ XX = transpose(X); BB = transpose(B); } }
-	if(!lsq){
-		if(!residualOk(M, XX, BB, extra)) out += " !oracle solve-residual";
+	if(cg){
+		out += cgOracle(M, XX, BB, cgEps, cgMaxit, form, S, K);
+	}else if(!lsq){
+		if(!residualOk(M, XX, BB)) out += " !oracle solve-residual";
 	}else{
 		// least squares: M^T (M X - B) = 0 ; for full rank this is the ordinary residual
 		Dense R = matmul(M, XX);
